@@ -99,6 +99,13 @@ enum {
   MYTH_VP_FINI_DONE = 162     /* after the store of `uninit' */
 };
 
+/* point ids of the sleep / timed-wait paths */
+enum {
+  MYTH_VP_YIELD = 2000,          /* entry of myth_yield_ex_body; a = yielding thread, v = option */
+  MYTH_VP_TIMEDLOCK_TRY = 2001,  /* a trylock attempt of myth_mutex_timedlock_body; a = mutex, v = 0 (got it) / 1 (busy) */
+  MYTH_VP_TIMEDJOIN_TRY = 2002   /* a tryjoin attempt of myth_timedjoin_body; a = target, v = 0 (joined) / 1 (busy) */
+};
+
 #ifdef MYTH_VERIF
 
 #ifdef __cplusplus
